@@ -1,7 +1,7 @@
 /* C03 harness: drives the four in-place COBS decoders on caller buffers made of separately
  * allocated, 16-byte aligned, exact-size fragments (ASan sees any access outside them).
  *
- * case:  <id> <variant 0..3> <slack> <frag lens "a,b,c" (last one is stretched/cut to fit)> <stream hex> <op>...
+ * case:  <id> <variant 0..3, 4 = mpt_decode_command (zero-terminated command text)> <slack> <frag lens "a,b,c" (last one is stretched/cut to fit)> <stream hex> <op>...
  *   vis N    N bytes of (slack ++ stream) are readable from now on
  *   dec      one decoder call on the readable fragments
  *   peek     one call in peek mode (sourcelen = 0)
@@ -15,7 +15,7 @@
 #include "convert.h"
 
 typedef int (*dec_fn)(MPT_STRUCT(decode_state) *, const struct iovec *, size_t);
-static dec_fn decs[] = { mpt_decode_cobs, mpt_decode_cobs_r, mpt_decode_cobs_zpe, mpt_decode_cobs_zpe_r };
+static dec_fn decs[] = { mpt_decode_cobs, mpt_decode_cobs_r, mpt_decode_cobs_zpe, mpt_decode_cobs_zpe_r, mpt_decode_command };
 
 #define MAXFRAG 16
 static uint8_t *fbase[MAXFRAG];
